@@ -954,4 +954,310 @@ theorem has_lift (banned : List Kind) (anc : List Up) (ts : List BTree) {c d : C
   rw [h] at this
   exact this.g.2
 
+/-! ### part C: what a declaration does -/
+
+theorem addForest_nil (banned : List Kind) (anc : List Up) (c : Cat) : addForest banned anc [] c = .ok c := by
+  rw [addForest]
+
+theorem addForest_cons (banned : List Kind) (anc : List Up) (t : BTree) (r : List BTree) (c : Cat) :
+    addForest banned anc (t :: r) c = addBranch banned anc t c >>= addForest banned anc r := by
+  rw [addForest]; cases addBranch banned anc t c <;> rfl
+
+theorem addForest_append (banned : List Kind) (anc : List Up) (l r : List BTree) (c : Cat) :
+    addForest banned anc (l ++ r) c = addForest banned anc l c >>= addForest banned anc r := by
+  induction l generalizing c with
+  | nil => rw [List.nil_append, addForest_nil]; rfl
+  | cons t l ih =>
+    rw [List.cons_append, addForest_cons, addForest_cons, bind_bind]
+    cases addBranch banned anc t c with
+    | error e => rfl
+    | ok x => exact ih x
+
+theorem bind_ok_right {α : Type} (x : R α) : (x >>= fun a => (.ok a : R α)) = x := by cases x <;> rfl
+
+theorem addForest_single (banned : List Kind) (anc : List Up) (t : BTree) (c : Cat) :
+    addForest banned anc [t] c = addBranch banned anc t c := by
+  rw [addForest_cons]
+  have : addForest banned anc [] = fun c => (.ok c : R Cat) := by funext c; exact addForest_nil banned anc c
+  rw [this, bind_ok_right]
+
+theorem addBranch_eq (banned : List Kind) (anc : List Up) (d : BDir) (kids : List BTree) (c : Cat) :
+    addBranch banned anc (.node d kids) c =
+      addDirective banned d (kids.map BTree.dir) anc c >>= addForest banned (⟨d, kids.map BTree.dir⟩ :: anc) kids := by
+  rw [addBranch]; cases addDirective banned d (kids.map BTree.dir) anc c <;> rfl
+
+theorem addBranch_leaf (banned : List Kind) (anc : List Up) (d : BDir) (c : Cat) :
+    addBranch banned anc (.node d []) c = addDirective banned d [] anc c := by
+  rw [addBranch_eq]
+  have : addForest banned (⟨d, [].map BTree.dir⟩ :: anc) [] = fun c => (.ok c : R Cat) := by
+    funext c; exact addForest_nil banned _ c
+  rw [this, bind_ok_right]; rfl
+
+def leafOf (k : Kind) (t : BTree) : Bool := t.dir.kind == k && t.kids.isEmpty
+
+/-- a declaration at the top level: TYPE, ENUM, MACRO without children, SERVER with BaseUrl children, TAG with
+Description children -/
+def isDecl (t : BTree) : Bool :=
+  match t.dir.kind with
+  | .Type | .Enum | .Macro => t.kids.isEmpty
+  | .Server => t.kids.all (leafOf .BaseURL)
+  | .TAG => t.kids.all (leafOf .Description)
+  | _ => false
+
+theorem leafOf_eq {k : Kind} {t : BTree} (h : leafOf k t = true) : ∃ d, t = .node d [] ∧ d.kind = k := by
+  cases t with
+  | node d kids =>
+    simp only [leafOf, BTree.dir, BTree.kids, Bool.and_eq_true, List.isEmpty_iff, beq_iff_eq] at h
+    exact ⟨d, by rw [h.2], h.1⟩
+
+/-- an operation that always fails -/
+def Fails (f : Cat → R Cat) : Prop := ∀ c, ∃ e, f c = .error e
+
+/-- an operation that appends the type `t` when its name is new -/
+def AppendsType (d : BDir) (t : TypeM) (f : Cat → R Cat) : Prop :=
+  ∀ c, f c = if c.types.any (fun x => x.name == t.name) then fail d .duplicateNames
+    else .ok { c with types := c.types ++ [t] }
+
+theorem type_summary (banned : List Kind) (anc : List Up) (d : BDir) (hk : d.kind = .Type) :
+    Fails (addBranch banned anc (.node d [])) ∨ ∃ t, AppendsType d t (addBranch banned anc (.node d [])) := by
+  have e : ∀ c, addBranch banned anc (.node d []) c =
+      if banned.contains .Type then fail d .notAllowed else addType d c := by
+    intro c; rw [addBranch_leaf]; unfold addDirective; rw [hk]
+  by_cases hb : banned.contains .Type = true
+  · left; intro c; rw [e, if_pos hb]; exact ⟨_, rfl⟩
+  by_cases hn : (d.param "Name").isEmpty = true
+  · left; intro c; rw [e, if_neg hb]; unfold addType; simp only [hn, if_true]; exact ⟨_, rfl⟩
+  cases hnt : newNotation (d.param "SchemaNotation") with
+  | error m =>
+    left; intro c; rw [e, if_neg hb]; unfold addType
+    simp only [hn, hnt, liftAt, bind_eq, if_false, Bool.false_eq_true, ↓reduceIte]
+    split <;> exact ⟨_, rfl⟩
+  | ok nt =>
+    by_cases hbody : ((nt == nJsight || nt == nRegex) && d.body.isNone) = true
+    · left; intro c; rw [e, if_neg hb]; unfold addType
+      simp only [hn, hnt, liftAt, bind_eq, if_false, hbody, if_true, Bool.false_eq_true, ↓reduceIte]
+      split <;> exact ⟨_, rfl⟩
+    · right
+      refine ⟨{ name := d.param "Name", annot := d.annot, nota := nt }, ?_⟩
+      intro c; rw [e, if_neg hb]; unfold addType
+      simp only [hn, hnt, liftAt, bind_eq, pure_eq, if_false, hbody, Bool.false_eq_true, ↓reduceIte]
+
+/-- an operation that appends the server `s` when its name is new -/
+def AppendsServer (d : BDir) (s : ServerM) (f : Cat → R Cat) : Prop :=
+  ∀ c, f c = if c.servers.any (fun x => x.name == s.name) then fail d .duplicateNames
+    else .ok { c with servers := c.servers ++ [s] }
+
+/-- a BaseUrl under the SERVER `d`, when the server of that name is the last one -/
+theorem base_step (banned : List Kind) (anc : List Up) (d : BDir) (ks : List BDir) (dk : BDir)
+    (hdk : dk.kind = .BaseURL) (c1 : Cat) (S : List ServerM) (s1 : ServerM)
+    (hs : c1.servers = S ++ [s1]) (hn : s1.name = d.param "Name")
+    (hS : S.any (fun x => x.name == d.param "Name") = false) :
+    addBranch banned (⟨d, ks⟩ :: anc) (.node dk []) c1 =
+      if banned.contains .BaseURL then fail dk .notAllowed
+      else if (dk.param "Path").isEmpty then fail dk (.required "Path")
+      else if !dk.annot.isEmpty then fail dk .annotationForbidden
+      else if !s1.baseUrl.isEmpty then fail dk .baseUrlDefined
+      else .ok { c1 with servers := S ++ [{ s1 with baseUrl := dk.param "Path" }] } := by
+  rw [addBranch_leaf]; unfold addDirective; rw [hdk]; simp only []
+  split
+  · rfl
+  unfold addBaseUrl; simp only []
+  split
+  · rfl
+  split
+  · rfl
+  have hnone : S.find? (fun x => x.name == d.param "Name") = none := by
+    rw [List.find?_eq_none]; intro x hx; exact List.any_eq_false.1 hS x hx
+  have hfind : c1.servers.find? (fun x => x.name == d.param "Name") = some s1 := by
+    rw [hs, List.find?_append, hnone]; simp [hn]
+  rw [hfind]; simp only []
+  split
+  · rfl
+  have hmap : c1.servers.map (fun x => if x.name == d.param "Name" then { x with baseUrl := dk.param "Path" } else x)
+      = S ++ [{ s1 with baseUrl := dk.param "Path" }] := by
+    rw [hs, List.map_append]
+    congr 1
+    · conv => rhs; rw [← List.map_id S]
+      apply List.map_congr_left
+      intro x hx
+      have := List.any_eq_false.1 hS x hx
+      simp only [this, if_false, Bool.false_eq_true, ↓reduceIte, id]
+    · simp [hn]
+  rw [hmap]
+
+theorem server_summary (banned : List Kind) (anc : List Up) (d : BDir) (kids : List BTree)
+    (hk : d.kind = .Server) (hkids : kids.all (leafOf .BaseURL) = true) :
+    Fails (addBranch banned anc (.node d kids)) ∨ ∃ s, AppendsServer d s (addBranch banned anc (.node d kids)) := by
+  have e : ∀ c, addBranch banned anc (.node d kids) c =
+      (if banned.contains .Server then fail d .notAllowed else addServer d c)
+        >>= addForest banned (⟨d, kids.map BTree.dir⟩ :: anc) kids := by
+    intro c; rw [addBranch_eq]; unfold addDirective; rw [hk]
+  by_cases hb : banned.contains .Server = true
+  · left; intro c; rw [e, if_pos hb]; exact ⟨_, rfl⟩
+  by_cases hn : (d.param "Name").isEmpty = true
+  · left; intro c; rw [e, if_neg hb]; unfold addServer; simp only [hn, if_true]; exact ⟨_, rfl⟩
+  -- the SERVER directive itself
+  have e1 : ∀ c, addBranch banned anc (.node d kids) c =
+      if c.servers.any (fun x => x.name == d.param "Name") then fail d .duplicateNames
+      else addForest banned (⟨d, kids.map BTree.dir⟩ :: anc) kids
+        { c with servers := c.servers ++ [{ name := d.param "Name", annot := d.annot }] } := by
+    intro c; rw [e, if_neg hb]; unfold addServer
+    simp only [hn, Bool.false_eq_true, ↓reduceIte]
+    split <;> rfl
+  cases kids with
+  | nil =>
+    right; refine ⟨{ name := d.param "Name", annot := d.annot }, ?_⟩
+    intro c; rw [e1, addForest_nil]
+  | cons k r =>
+    simp only [List.all_cons, Bool.and_eq_true] at hkids
+    obtain ⟨dk, rfl, hdk⟩ := leafOf_eq hkids.1
+    have ek : ∀ c : Cat, c.servers.any (fun x => x.name == d.param "Name") = false →
+        addBranch banned (⟨d, (BTree.node dk [] :: r).map BTree.dir⟩ :: anc) (.node dk [])
+          { c with servers := c.servers ++ [{ name := d.param "Name", annot := d.annot }] } = _ :=
+      fun c hc => base_step banned anc d _ dk hdk _ c.servers _ rfl rfl hc
+    by_cases hv : banned.contains .BaseURL = true ∨ (dk.param "Path").isEmpty = true ∨ (!dk.annot.isEmpty) = true
+    · left; intro c; rw [e1]
+      split
+      · exact ⟨_, rfl⟩
+      · rename_i hc
+        rw [addForest_cons, ek c (by simpa using hc)]
+        repeat' split
+        all_goals first | exact ⟨_, rfl⟩ | (exfalso; rcases hv with hv | hv | hv <;> contradiction)
+    · simp only [not_or] at hv
+      obtain ⟨hv1, hv2, hv3⟩ := hv
+      have ek' : ∀ c : Cat, c.servers.any (fun x => x.name == d.param "Name") = false →
+          addBranch banned (⟨d, (BTree.node dk [] :: r).map BTree.dir⟩ :: anc) (.node dk [])
+            { c with servers := c.servers ++ [{ name := d.param "Name", annot := d.annot }] } =
+          .ok { c with servers := c.servers ++
+            [{ name := d.param "Name", annot := d.annot, baseUrl := dk.param "Path" }] } := by
+        intro c hc
+        rw [ek c hc, if_neg hv1, if_neg hv2, if_neg hv3]
+        rfl
+      cases r with
+      | nil =>
+        right; refine ⟨{ name := d.param "Name", annot := d.annot, baseUrl := dk.param "Path" }, ?_⟩
+        intro c; rw [e1]
+        split
+        · rfl
+        · rename_i hc
+          rw [addForest_single, ek' c (by simpa using hc)]
+      | cons k2 r2 =>
+        left; intro c; rw [e1]
+        split
+        · exact ⟨_, rfl⟩
+        · rename_i hc
+          simp only [List.all_cons, Bool.and_eq_true] at hkids
+          obtain ⟨dk2, rfl, hdk2⟩ := leafOf_eq hkids.2.1
+          rw [addForest_cons, ek' c (by simpa using hc), ok_bind, addForest_cons,
+            base_step banned anc d _ dk2 hdk2 _ c.servers _ rfl rfl (by simpa using hc)]
+          have hne : (!(dk.param "Path").isEmpty) = true := by simpa using hv2
+          repeat' split
+          all_goals first | exact ⟨_, rfl⟩ | (exfalso; contradiction)
+
+/-- a Description under a TAG: the tag of that name receives the text, once -/
+def descrStep (e1 e2 : BErr) (n text : Bytes) (c : Cat) : R Cat :=
+  match c.getTag n with
+  | none => .error e1
+  | some t => if t.descr.isSome then .error e2 else .ok (c.updTag n fun t => { t with descr := some text })
+
+theorem getTag_updTag (c : Cat) (m n : Bytes) (f : TagM → TagM) (hf : ∀ x, (f x).name = x.name) :
+    (c.updTag m f).getTag n = (c.getTag n).map (fun x => if x.name == m then f x else x) := by
+  unfold Cat.updTag Cat.getTag
+  simp only []
+  rw [List.find?_map]
+  have : ((fun x : TagM => x.name == n) ∘ fun x => if (x.name == m) = true then f x else x)
+      = (fun x => x.name == n) := by
+    funext x; simp only [Function.comp]; split
+    · rw [hf]
+    · rfl
+  rw [this]
+
+theorem descr_child (banned : List Kind) (anc : List Up) (d : BDir) (ks : List BDir) (dk : BDir)
+    (hd : d.kind = .TAG) (hdk : dk.kind = .Description) :
+    Fails (addBranch banned (⟨d, ks⟩ :: anc) (.node dk [])) ∨
+    ∃ text, ∀ c, addBranch banned (⟨d, ks⟩ :: anc) (.node dk []) c =
+      descrStep ⟨dk.id, .tagNotFound⟩ ⟨dk.id, .notUnique⟩ (d.param "TagName") text c := by
+  have e : ∀ c, addBranch banned (⟨d, ks⟩ :: anc) (.node dk []) c =
+      if banned.contains .Description then fail dk .notAllowed else addDescription dk (⟨d, ks⟩ :: anc) c := by
+    intro c; rw [addBranch_leaf]; unfold addDirective; rw [hdk]
+  by_cases hb : banned.contains .Description = true
+  · left; intro c; rw [e, if_pos hb]; exact ⟨_, rfl⟩
+  by_cases ha : (!dk.annot.isEmpty) = true
+  · left; intro c; rw [e, if_neg hb]; unfold addDescription; rw [if_pos ha]; exact ⟨_, rfl⟩
+  cases hbody : dk.body with
+  | none => left; intro c; rw [e, if_neg hb]; unfold addDescription; rw [if_neg ha, hbody]; exact ⟨_, rfl⟩
+  | some b =>
+    cases hdes : description b with
+    | error x =>
+      left; intro c; rw [e, if_neg hb]; unfold addDescription; rw [if_neg ha, hbody]
+      simp only [hdes]; exact ⟨_, rfl⟩
+    | ok text =>
+      by_cases ht : text.isEmpty = true
+      · left; intro c; rw [e, if_neg hb]; unfold addDescription; rw [if_neg ha, hbody]
+        simp only [hdes, ht, if_true]; exact ⟨_, rfl⟩
+      · right; refine ⟨text, ?_⟩
+        intro c; rw [e, if_neg hb]; unfold addDescription; rw [if_neg ha, hbody]
+        have h1 : (Kind.TAG == Kind.Info) = false := by decide
+        have h2 : isHTTP Kind.TAG = false := by decide
+        have h3 : (Kind.TAG == Kind.Method) = false := by decide
+        simp only [hdes, ht, hd, h1, h2, h3, Bool.false_eq_true, ↓reduceIte, beq_self_eq_true]
+        unfold descrStep
+        cases c.getTag (d.param "TagName") <;> rfl
+
+theorem tag_summary (banned : List Kind) (anc : List Up) (d : BDir) (kids : List BTree)
+    (hk : d.kind = .TAG) (hkids : kids.all (leafOf .Description) = true) :
+    Fails (addBranch banned anc (.node d kids)) ∨ (∀ c, addBranch banned anc (.node d kids) c = .ok c) ∨
+    ∃ e1 e2 text, ∀ c, addBranch banned anc (.node d kids) c = descrStep e1 e2 (d.param "TagName") text c := by
+  have e : ∀ c, addBranch banned anc (.node d kids) c =
+      (if banned.contains .TAG then fail d .notAllowed else .ok c)
+        >>= addForest banned (⟨d, kids.map BTree.dir⟩ :: anc) kids := by
+    intro c; rw [addBranch_eq]; unfold addDirective; rw [hk]
+  by_cases hb : banned.contains .TAG = true
+  · left; intro c; rw [e, if_pos hb]; exact ⟨_, rfl⟩
+  have e1 : ∀ c, addBranch banned anc (.node d kids) c =
+      addForest banned (⟨d, kids.map BTree.dir⟩ :: anc) kids c := by
+    intro c; rw [e, if_neg hb]; rfl
+  cases kids with
+  | nil => right; left; intro c; rw [e1, addForest_nil]
+  | cons k r =>
+    simp only [List.all_cons, Bool.and_eq_true] at hkids
+    obtain ⟨dk, rfl, hdk⟩ := leafOf_eq hkids.1
+    rcases descr_child banned anc d ((BTree.node dk [] :: r).map BTree.dir) dk hk hdk with hf | ⟨text, ht⟩
+    · left; intro c; rw [e1, addForest_cons]
+      obtain ⟨x, hx⟩ := hf c
+      rw [hx]; exact ⟨_, rfl⟩
+    · cases r with
+      | nil =>
+        right; right; refine ⟨⟨dk.id, .tagNotFound⟩, ⟨dk.id, .notUnique⟩, text, ?_⟩
+        intro c; rw [e1, addForest_single, ht]
+      | cons k2 r2 =>
+        left; intro c; rw [e1, addForest_cons, ht]
+        simp only [List.all_cons, Bool.and_eq_true] at hkids
+        obtain ⟨dk2, rfl, hdk2⟩ := leafOf_eq hkids.2.1
+        unfold descrStep
+        cases hg : c.getTag (d.param "TagName") with
+        | none => exact ⟨_, rfl⟩
+        | some t =>
+          simp only []
+          split
+          · exact ⟨_, rfl⟩
+          · rw [ok_bind, addForest_cons]
+            rcases descr_child banned anc d ((BTree.node dk [] :: BTree.node dk2 [] :: r2).map BTree.dir) dk2 hk hdk2
+              with hf | ⟨text2, ht2⟩
+            · obtain ⟨x, hx⟩ := hf (c.updTag (d.param "TagName") fun t => { t with descr := some text })
+              rw [hx]; exact ⟨_, rfl⟩
+            · rw [ht2]
+              unfold descrStep
+              rw [getTag_updTag _ _ _ _ (fun _ => rfl), hg]
+              have hn : (t.name == d.param "TagName") = true := by
+                have := (getTag_some hg).2; simp [this]
+              simp only [Option.map_some, hn, if_true, Option.isSome_some]
+              exact ⟨_, rfl⟩
+
+/-- ENUM, MACRO without children -/
+theorem noop_summary (banned : List Kind) (anc : List Up) (d : BDir) (hk : d.kind = .Enum ∨ d.kind = .Macro) (c : Cat) :
+    addBranch banned anc (.node d []) c = if banned.contains d.kind then fail d .notAllowed else .ok c := by
+  rw [addBranch_leaf]; unfold addDirective
+  rcases hk with hk | hk <;> rw [hk]
+
 end JSight.BuildPerm
